@@ -5,7 +5,8 @@ D=$(mktemp -d /tmp/seedrun.XXXXXX)
 rsync -a --exclude .git /repo/ "$D/"
 if ! (cd "$D" && patch -p1 -s --no-backup-if-mismatch < "$P"); then echo "SEEDRUN: patch does not apply"; rm -rf "$D"; exit 3; fi
 (cd "$D" && GOFLAGS=-mod=mod GOPROXY=off GOSUMDB=off GOTOOLCHAIN=local go build ./... ) || echo "SEEDRUN: does not compile"
+V=$(mktemp -d /tmp/seedv.XXXXXX); cp /verif/known_findings.json "$V/"; mkdir -p "$V/evidence"
 for ID in "$@"; do
-  ADCHECK_REPO="$D" /verif/check "$ID" quick 2>&1 | grep -v "^  C\|^KNOWN" | cut -c1-${SEED_COLS:-300} | head -${SEED_LINES:-6}
+  /verif/bin/adcheck -property "$ID" -tier quick -repo "$D" -verif "$V" 2>&1 | grep -v "^  C\|^KNOWN" | cut -c1-${SEED_COLS:-300} | head -${SEED_LINES:-6}
 done
-rm -rf "$D"
+rm -rf "$D" "$V"
